@@ -1,8 +1,8 @@
 """C08 — input windows read exactly the scheduled messages from the output buffers."""
 from pyvc.driver import check_property
-from . import compiled
+from . import compiled, graph_api
 
-UNITS = [u for u in compiled.UNITS if "C08" in u.props]
+UNITS = [u for u in compiled.UNITS + graph_api.UNITS if "C08" in u.props]
 
 
 def check(tier, seed):
